@@ -23,7 +23,7 @@ ASSUMPTIONS = [
 ]
 MANIFEST = {'text': 'proof (all normal paths) that the command handler sends exactly one text reply per command and that `close` only leaves its drain loop when the pipeline is disconnected and joins all threads; '
                     'plus a deviance rule (level other) that no parse/split result of request text is unwrapped unguarded in the handler cone.'
-                    ' Added: integers parsed from the request reach allocation sizes, slice indices/range bounds and checked multiplications only behind a bound (taint rule with helper summaries). Added: eagerly evaluated defaults (unwrap_or / map_or / then_some) in the remote module contain no panic-capable operation. Added: text is sliced by byte offsets only at offsets obtained from the text itself (find / char_indices / len). Added: unsigned subtractions that involve a stream window bound (client state, changeable at any time by stream_change_window) are discharged by a dominating comparison / clamp.'}
+                    ' Added: integers parsed from the request reach allocation sizes, slice indices/range bounds and checked multiplications only behind a bound (taint rule with helper summaries). Added: eagerly evaluated defaults (unwrap_or / map_or / then_some) in the remote module contain no panic-capable operation. Added: text is sliced by byte offsets only at offsets obtained from the text itself (find / char_indices / len). Added: unsigned subtractions that involve a stream window bound (client state, changeable at any time by stream_change_window) are discharged by a dominating comparison / clamp. Added: close joins no pipeline thread before the drain loop has seen Disconnected.'}
 
 TEXT_VARIANT = 'Message::Text'
 PARSE_LIKE = re.compile(r'(split_once|rsplit_once|::parse|from_str|::get\b|::nth\b|strip_prefix|strip_suffix|::find\b|::position\b|as_u64|as_i64|as_str|as_array|as_object|as_bool|'
@@ -324,12 +324,55 @@ def check_close(F, h, R3):
                                 good = True
                         if blk.term.d['otherwise'] == s_ and [v for v, _ in blk.term.d['vals']] == [0]:
                             good = True
+                if not good and blk.term.k == 'switch':
+                    # `while !disconnected { .. Err(Disconnected) => disconnected = true }`: the loop is left on a flag that only the
+                    # Disconnected arm sets
+                    dop = Operand(blk.term.d['d'])
+                    base = dop.place.l if dop.place is not None and dop.place.is_local and not dop.place.p else None
+                    neg = False
+                    for _ in range(4):
+                        sdb = cfg.single_def(base) if base is not None else None
+                        if sdb is not None and sdb[1] != 'call' and sdb[2].rv['k'] == 'un' and sdb[2].rv['op'] == 'Not' and Operand(sdb[2].rv['a']).place is not None and not Operand(sdb[2].rv['a']).place.p:
+                            neg = not neg
+                            base = Operand(sdb[2].rv['a']).place.l
+                        elif sdb is not None and sdb[1] != 'call' and sdb[2].rv['k'] == 'use' and Operand(sdb[2].rv['o']).place is not None and not Operand(sdb[2].rv['o']).place.p:
+                            base = Operand(sdb[2].rv['o']).place.l
+                        else:
+                            break
+                    if base is not None and d.lty(base) == 'bool':
+                        defs = cfg.defs.get(base, [])
+                        # which value of the flag leaves the loop
+                        leave = None
+                        for v, t in blk.term.d['vals']:
+                            if t == s_:
+                                leave = (v != 0)
+                        if leave is None and blk.term.d['otherwise'] == s_ and [v for v, _ in blk.term.d['vals']] == [0]:
+                            leave = True
+                        if leave is not None:
+                            leave = (leave != neg)
+                            setters = []
+                            only_const = True
+                            for (bi, si, dd) in defs:
+                                if si == 'call' or dd.rv['k'] != 'use' or not Operand(dd.rv['o']).is_const:
+                                    only_const = False
+                                    continue
+                                if bool(Operand(dd.rv['o']).value) == leave:
+                                    setters.append(bi)
+                            if only_const and setters and all(any(tt == ('eq', 1) and '@Err.0' in show(cc).replace(' ', '') and 'try_recv' in show(cc) for (cc, tt, DD) in guards.known(cfg, E, bi) ) for bi in setters if bi in lbody) \
+                                    and all(bi in lbody for bi in setters):
+                                good = True
                 if not good:
                     ok_all = False
                     R3.violation(('close-loop-exit', h.path, 'edge'), 'the close drain loop can be left on an edge other than TryRecvError::Disconnected (threads may still block on a full channel while being joined)',
                                  where=d.loc(d.blocks[b].term.sp))
             if ok_all and exits:
                 R3.ok(sample={'drain_loop_exits': len(exits), 'all_on': 'TryRecvError::Disconnected'})
+            # a thread joined before (or inside) the drain can itself sit in a blocking send on a full channel whose only
+            # consumer is this loop: join first = wait forever
+            early = [jn for jn in joins if tr in cfg.reachable_from(jn)]
+            for jn in early:
+                R3.violation(('close-join-before-drain', h.path), 'close joins a pipeline thread at %s before the output channel has been drained until Disconnected: with full channels that thread blocks in send() while its only consumer waits in join() - nothing terminates' % d.loc(d.blocks[jn].term.sp),
+                             where=d.loc(d.blocks[jn].term.sp))
             exit_tgts = [s_ for (_, s_) in exits]
             uncond = 0
             for jn in joins:
